@@ -17,7 +17,7 @@ import RotoV.Generated.DeclType
 
 namespace RotoV.C18
 open RotoV.Reg RotoV.Reg.Src
-open RotoV.Gen.DeclType (guards facts)
+open RotoV.Gen.DeclType (guards facts lookup)
 
 /-- **`declare_type` is written as modelled**: two guards over the registered
     entries, then the declaration in the type checker, then the new entry —
@@ -130,6 +130,34 @@ example : SomeEntryRejects guards stMeters [2] 5 7 ∧
 example : ¬ SomeEntryRejects guards stMeters [2] 5 8 := by
   rw [declare_type_guards_as_modelled stMeters stMeters_names]
   simp [stMeters, St.insertType, St.init]
+
+/-- **`Rt::get_runtime_type` finds a registered type by its Rust type alone**
+    (regenerated from the source): signatures, constants and impl blocks
+    resolve a Rust type to the entry that has this Rust type, whatever name it
+    is registered under and wherever. -/
+theorem runtime_type_lookup_by_rust_type_alone (t i s : Bool) : lookup t i s = t := by
+  cases t <;> cases i <;> cases s <;> rfl
+
+/-- … which is the model's `st.types id` (the lookup `convTy` and `implScope`
+    make): on every runtime the generated lookup finds an entry iff the model's
+    table has one for this Rust type. -/
+theorem runtime_type_lookup_as_modelled (st : St) (scope : ScopeId) (n : Name) (id : TyId) :
+    (∃ id' nm, st.types id' = some nm ∧
+      lookup (entryFacts scope n id id' nm).1 (entryFacts scope n id id' nm).2.1
+        (entryFacts scope n id id' nm).2.2 = true)
+    ↔ (st.types id).isSome = true := by
+  constructor
+  · rintro ⟨id', nm, hreg, h⟩
+    rw [runtime_type_lookup_by_rust_type_alone] at h
+    simp only [entryFacts, decide_eq_true_eq] at h
+    subst h; simp [hreg]
+  · intro h
+    obtain ⟨nm, hnm⟩ := Option.isSome_iff_exists.1 h
+    exact ⟨id, nm, hnm, by rw [runtime_type_lookup_by_rust_type_alone]; simp [entryFacts]⟩
+
+example : ∃ id' nm, stMeters.types id' = some nm ∧
+    lookup (entryFacts [2] 9 7 id' nm).1 (entryFacts [2] 9 7 id' nm).2.1 (entryFacts [2] 9 7 id' nm).2.2 = true :=
+  (runtime_type_lookup_as_modelled stMeters [2] 9 7).2 (by simp [stMeters, St.insertType])
 
 /-- **What narrowing the first guard by the identifier does** (the shape
     `old.type_id == ty.type_id && old.name.ident != ty.ident`, "the name clash
